@@ -173,18 +173,20 @@ def idxG? {α : Type} (s : List α) (i : Int64) : Option α :=
 def setG? {α : Type} (s : List α) (i : Int64) (v : α) : Option (List α) :=
   if 0 ≤ i.toInt ∧ i.toInt < s.length then some (s.set i.toInt.toNat v) else none
 
-/-- `binary.LittleEndian.Uint32(b)` / `Uint64(b)`: panics when `b` is too short -/
+/-- `binary.LittleEndian.Uint32(b)` / `Uint64(b)`: the little-endian number of the first 4 / 8
+    bytes (`b[0] | b[1]<<8 | …`, written as a sum: the bytes occupy disjoint bit ranges);
+    panics when `b` is too short -/
 def leU32? (b : List UInt8) : Option UInt32 :=
   match b with
   | b0 :: b1 :: b2 :: b3 :: _ =>
-    some (b0.toUInt32 ||| (b1.toUInt32 <<< 8) ||| (b2.toUInt32 <<< 16) ||| (b3.toUInt32 <<< 24))
+    some (UInt32.ofNat (b0.toNat + 256 * b1.toNat + 65536 * b2.toNat + 16777216 * b3.toNat))
   | _ => none
 
 def leU64? (b : List UInt8) : Option UInt64 :=
   match b with
   | b0 :: b1 :: b2 :: b3 :: b4 :: b5 :: b6 :: b7 :: _ =>
-    some (b0.toUInt64 ||| (b1.toUInt64 <<< 8) ||| (b2.toUInt64 <<< 16) ||| (b3.toUInt64 <<< 24) |||
-      (b4.toUInt64 <<< 32) ||| (b5.toUInt64 <<< 40) ||| (b6.toUInt64 <<< 48) ||| (b7.toUInt64 <<< 56))
+    some (UInt64.ofNat (b0.toNat + 256 * b1.toNat + 65536 * b2.toNat + 16777216 * b3.toNat +
+      4294967296 * (b4.toNat + 256 * b5.toNat + 65536 * b6.toNat + 16777216 * b7.toNat)))
   | _ => none
 
 end ScionTime.Go
